@@ -285,7 +285,7 @@ static void oracle_complete(int nexp, int *exp, int coll)
     int r;
     if (!coll || nprocs == 1) { oracle_complete1(nexp, exp); return; }
     for (r = 0; r < nprocs; r++) {
-        if (r == rank) { oracle_complete1(nexp, exp); ncmpi_sync(ncB); }
+        if (r == rank) oracle_complete1(nexp, exp);
         MPI_Barrier(MPI_COMM_WORLD);
     }
 }
